@@ -70,6 +70,11 @@ func c08Auth(run *evid.Run, evals, nontrivial *int) {
 				req.Header.Set("Cookie", "session=abc")
 				kind := fmt.Sprintf("auth enabled, %s, piko token in %s, client's own Authorization %q", route, carrier, own)
 				resp, err := e4.Client().Do(req)
+				for r := 0; r < 3 && err == nil && resp.StatusCode != 200 && !e4.AllActive(nodes); r++ {
+					resp.Body.Close()
+					e4.WaitAllActive(nodes, 30*time.Second) // membership flapped under load: decide afresh
+					resp, err = e4.Client().Do(req)
+				}
 				if err != nil {
 					run.Violation("C08", "no-response", kind+": "+err.Error(), map[string]any{"engine": "E4-C08", "failure_case": kind})
 					continue
